@@ -38,7 +38,7 @@ uint64_t vh_total(int tier)
         for(i = 0; i < n; i++){
                 t += fsize(&F[i]);
         }
-        return t + NMANY + NLONG + NFRAG + NAMP + NAMP2;
+        return t + NMANY + NLONG + NFRAG + NAMP + NAMP2 + SH_NTIE;
 }
 
 struct dcase { struct kx_set in; int type; int protein; int many; };
@@ -65,6 +65,16 @@ static void decode(uint64_t id, int tier, struct dcase* c)
                         return;
                 }
                 id -= sz;
+        }
+        if(id >= NMANY + NLONG + NFRAG + NAMP + NAMP2){
+                /* sequences that share their first 1030 residues (the exact distance looks at 1024): all pairs tie */
+                int k = (int)(id - NMANY - NLONG - NFRAG - NAMP - NAMP2);
+                kx_set_free(&c->in);
+                sh_tie_build(k, &c->in);
+                c->many = 5000 + k;
+                c->protein = (k < SH_NTIE_EQ) ? (k & 1) : 1;
+                c->type = KALIGN_TYPE_UNDEFINED;
+                return;
         }
         if(id >= NMANY + NLONG + NFRAG + NAMP){
                 int k = (int)(id - NMANY - NLONG - NFRAG - NAMP);
@@ -347,7 +357,19 @@ int vh_case(uint64_t id, int tier)
                         }
                         judged = 1;
                         if(strcmp(rows[i], rows[j]) != 0){
-                                vh_fail("sem:duplicate-rows-differ", "copies %d and %d of \"%s\" come out as \"%.80s\" and \"%.80s\"", i, j, c.in.seq[i], rows[i], rows[j]);
+                                /* the recorded finding (known_findings.txt): the duplicated sequence is longer than 1024 residues and another,
+                                   different sequence longer than 1024 starts with the same 1024 residues - the exact distance looks at the
+                                   first 1024 residues only (C11 states that cap), so such pairs are at distance 0 like the copies themselves */
+                                int shared = 0;
+                                if(c.in.len[i] > 1024){
+                                        for(k = 0; k < c.in.n; k++){
+                                                if(c.in.len[k] > 1024 && strcmp(c.in.seq[k], c.in.seq[i]) != 0 && memcmp(c.in.seq[k], c.in.seq[i], 1024) == 0){
+                                                        shared = 1;
+                                                }
+                                        }
+                                }
+                                vh_fail(shared ? "sem:duplicate-rows-differ.first-1024-residues-shared-with-another-sequence" : "sem:duplicate-rows-differ",
+                                        "copies %d and %d of \"%.200s\" come out as \"%.80s\" and \"%.80s\"", i, j, c.in.seq[i], rows[i], rows[j]);
                                 i = c.in.n;
                                 break;
                         }
